@@ -429,10 +429,30 @@ impl<'a> Gen<'a> {
         };
         Primitive::Dictionary(self.model(mname, true, top))
     }
-    fn colorspace(&mut self) -> Primitive {
-        match self.src.alt(2, &["cs-rgb", "cs-cmyk", "cs-indexed"]) {
+    fn colorspace(&mut self) -> Primitive { self.colorspace_depth(0) }
+    fn colorspace_depth(&mut self, depth: usize) -> Primitive {
+        let wp = || { let mut d = Dictionary::new(); d.insert("WhitePoint", arr(vec![real(0.9505), real(1.0), real(1.089)])); d };
+        match self.src.alt(2, &["cs-rgb", "cs-cmyk", "cs-indexed", "cs-gray", "cs-pattern", "cs-named", "cs-calgray", "cs-calrgb", "cs-calcmyk", "cs-icc", "cs-lab-other"]) {
             0 => name("DeviceRGB"),
             1 => name("DeviceCMYK"),
+            3 => name("DeviceGray"),
+            4 => name("Pattern"),
+            5 => name(["Cs0", "DefaultRGB", "My Space"][self.src.draw(3) as usize]),
+            6 => { let mut d = wp(); if self.src.chance(1, 2) { d.insert("Gamma", real(2.2)); } arr(vec![name("CalGray"), Primitive::Dictionary(d)]) }
+            7 => { let mut d = wp(); if self.src.chance(1, 2) { d.insert("Gamma", arr(vec![real(2.2), real(2.2), real(2.2)])); d.insert("Matrix", arr((0..9).map(|i| real(i as f32 * 0.125)).collect())); } arr(vec![name("CalRGB"), Primitive::Dictionary(d)]) }
+            8 => arr(vec![name("CalCMYK"), Primitive::Dictionary(wp())]),
+            9 => {
+                // ICCBased: always an indirect stream (RcRef in the model)
+                let n = [3i32, 1, 4][self.src.draw(3) as usize];
+                let mut d = Dictionary::new();
+                d.insert("N", int(n));
+                if depth < 2 && self.src.chance(1, 2) { d.insert("Alternate", name(["DeviceGray", "DeviceRGB", "DeviceCMYK"][match n { 1 => 0, 3 => 1, _ => 2 }])); }
+                if self.src.chance(1, 3) { d.insert("Range", arr((0..2 * n).map(|i| real((i % 2) as f32)).collect())); }
+                let s = mk_stream(self.st, d, b"not a real profile");
+                let r = self.put(Primitive::Stream(s));
+                arr(vec![name("ICCBased"), r])
+            }
+            10 => { let mut d = wp(); d.insert("Range", arr(vec![int(-100), int(100), int(-100), int(100)])); arr(vec![name("Lab"), Primitive::Dictionary(d)]) }
             _ => {
                 let (base, ncomp) = if self.src.chance(1, 2) { ("DeviceRGB", 3) } else { ("DeviceCMYK", 4) };
                 let hival = [1i32, 0, 15, 49, 255][self.src.draw(5) as usize];
@@ -447,6 +467,8 @@ impl<'a> Gen<'a> {
         }
     }
 }
+
+fn real(x: f32) -> Primitive { Primitive::Number(x) }
 
 /// kinds whose reader resolves a reference given in place of the value (so the value may be made indirect)
 fn wrap_ok(k: &K) -> bool {
